@@ -26,7 +26,7 @@ def verus_version():
     return VERUS_VERSION
 
 
-PROOF_FAIL = ('postcondition not satisfied', 'precondition not satisfied', 'assertion failed',
+PROOF_FAIL = ('precondition not met', 'postcondition not satisfied', 'precondition not satisfied', 'assertion failed',
               'invariant not satisfied', 'assertion failure', 'cannot show', 'decreases not satisfied',
               'possible arithmetic underflow/overflow', 'possible division by zero',
               'recommendation not met', 'failed this', 'index out of bounds', 'not satisfied',
@@ -188,6 +188,11 @@ def run_unit(unit, repo=vgen.REPO, rlimit=None, use_cache=True, keep=None):
         res['reason'] = 'verus produced no JSON (rc=%s): %s' % (raw.get('rc'), raw['stderr'][:300])
         return res
     res['functions'] = [f for f in res['functions'] if not f['name'].endswith('canary_must_fail')]
+    if 'panicked at' in raw['stderr']:
+        mm = re.search(r'panicked at ([^\n]*)\n([^\n]*)', raw['stderr'])
+        res['status'] = 'undecided'
+        res['reason'] = 'verus crashed: %s %s' % (mm.group(1) if mm else '', mm.group(2) if mm else '')
+        return res
     if not res.get('canary_failed'):
         res['status'] = 'undecided'
         res['reason'] = 'vacuity canary did not fail: the assumptions in scope are contradictory (or Verus did not reach the unit)'
